@@ -35,11 +35,36 @@ def rescaled_twin(s, c_log2=22):
     return t
 
 
+def scaled_cov_twin(s, c_log2=-40):
+    """the same behaviour with every covariance and every sensor noise 2^c_log2 times as large (variances of ~1e-12): the spec
+    (InvScaleCov, checked exactly by TLC with 1/4) says the states stay the same and the covariances scale along"""
+    t = copy.deepcopy({k: v for k, v in s.items() if not k.startswith("_")})
+    if any(st["act"] not in ("SetEstimate", "Update") for st in t["steps"]) or t["def"]["k"][1] != 0:
+        return None          # (predictions add process noise, a gate compares against an absolute threshold: other theorems)
+    D = 2 ** (-c_log2)
+
+    def sc(q):
+        return [q[0], q[1] * D]
+    d = t["def"]
+    d["snoise"] = {k: {r: sc(q) for r, q in named(m).items()} for k, m in named(d["snoise"]).items()}
+    for st in t["steps"]:
+        if "P" in st:
+            st["P"] = {r: {c: sc(q) for c, q in named(row).items()} for r, row in named(st["P"]).items()}
+        if "S" in st:
+            st["S"] = {r: {c: sc(q) for c, q in named(row).items()} for r, row in named(st["S"]).items()}
+        st.pop("nis", None)
+    t["_id"] = s.get("_id", "") + "-scaled-covariances"
+    return t
+
+
 def _post(ctx, scns, results):
     twins = [t for t in (rescaled_twin(s) for s in scns) if t is not None]
     r = scen.replay_all(ctx, twins, cse_settings=(False,), force_ekf=True)
     c = scen.record_results(ctx, r, key_prefix="rescaled-reading:")
-    return {"rescaled_twins": len(twins), "rescaled": c}
+    tiny = [t for t in (scaled_cov_twin(s) for s in scns) if t is not None]
+    r2 = scen.replay_all(ctx, tiny, cse_settings=(False,), force_ekf=True)
+    c2 = scen.record_results(ctx, r2, key_prefix="scaled-covariances:")
+    return {"rescaled_twins": len(twins), "rescaled": c, "scaled_covariance_twins": len(tiny), "scaled_covariances": c2}
 
 
 REPO_ASSUME = ("thorough tier: every model / filter call the repository's own test-suite executes is recorded (pytest plugin, /repo untouched), "
